@@ -5,6 +5,7 @@ use crate::bits;
 use crate::core::*;
 use crate::framecheck::*;
 use crate::framegen::*;
+use crate::refdec::Nu;
 use crate::refdec::{self, debug_field};
 use adsb_deku::adsb::*;
 use adsb_deku::bds::BDS;
@@ -199,7 +200,7 @@ fn me_text(me: &ME, icao: &ICAO, address_type: &str, capability: &Capability, is
                 br.push("me:vel_as".into());
                 head(&mut f, "Airspeed and heading, subsonic", true);
                 let _ = writeln!(f, "  IAS:           {} kt", a.airspeed);
-                if v.vrate_value > 0 {
+                if v.vrate_value.nu() > 0 {
                     br.push("baro_rate:shown".into());
                     let _ = writeln!(f, "  Baro rate:     {}{} ft/min", sign_s(&v.vrate_sign), (v.vrate_value as u32 - 1) * 64);
                     br.push(format!("vr_sign:{}", sign_s(&v.vrate_sign)));
@@ -297,22 +298,22 @@ fn me_text(me: &ME, icao: &ICAO, address_type: &str, capability: &Capability, is
             br.push(format!("version:{}", version_n(&a.version_number)));
             let cc = &a.capability_class;
             let mut c = String::new();
-            if cc.acas == 1 {
+            if cc.acas.nu() == 1 {
                 c += " ACAS";
             }
-            if cc.cdti == 1 {
+            if cc.cdti.nu() == 1 {
                 c += " CDTI";
             }
-            if cc.arv == 1 {
+            if cc.arv.nu() == 1 {
                 c += " ARV";
             }
-            if cc.ts == 1 {
+            if cc.ts.nu() == 1 {
                 c += " TS";
             }
-            if cc.tc == 1 {
+            if cc.tc.nu() == 1 {
                 c += " TC";
             }
-            br.push(format!("cc:{}{}{}{}{}", cc.acas, cc.cdti, cc.arv, cc.ts, (cc.tc == 1) as u8));
+            br.push(format!("cc:{}{}{}{}{}", cc.acas.nu(), cc.cdti.nu(), cc.arv.nu(), cc.ts.nu(), (cc.tc.nu() == 1) as u8));
             let _ = writeln!(f, "   Capability classes:{c}");
             let _ = writeln!(f, "   Operational modes: {}", om_text(&a.operational_mode, br));
             let _ = writeln!(f, "   NIC-A:              {}", a.nic_supplement_a);
@@ -320,7 +321,7 @@ fn me_text(me: &ME, icao: &ICAO, address_type: &str, capability: &Capability, is
             let _ = writeln!(f, "   GVA:                {}", a.geometric_vertical_accuracy);
             let _ = writeln!(f, "   SIL:                {} (per hour)", a.source_integrity_level);
             let _ = writeln!(f, "   NICbaro:            {}", a.barometric_altitude_integrity);
-            if a.horizontal_reference_direction == 1 {
+            if a.horizontal_reference_direction.nu() == 1 {
                 br.push("hrd:magnetic".into());
                 f += "   Heading reference:  magnetic north\n";
             } else {
@@ -338,7 +339,7 @@ fn me_text(me: &ME, icao: &ICAO, address_type: &str, capability: &Capability, is
             let _ = writeln!(f, "   NIC-C:              {}", a.capability_class.nic_supplement_c);
             let _ = writeln!(f, "   NACv:               {}", a.capability_class.nac_v);
             f += "   Capability classes:";
-            if a.lw_codes != 0 {
+            if a.lw_codes.nu() != 0 {
                 br.push("lw:shown".into());
                 let _ = writeln!(f, " L/W={}", a.lw_codes);
             } else {
@@ -349,7 +350,7 @@ fn me_text(me: &ME, icao: &ICAO, address_type: &str, capability: &Capability, is
             let _ = writeln!(f, "   NACp:               {}", a.navigational_accuracy_category);
             let _ = writeln!(f, "   SIL:                {} (per hour)", a.source_integrity_level);
             let _ = writeln!(f, "   NICbaro:            {}", a.barometric_altitude_integrity);
-            if a.horizontal_reference_direction == 1 {
+            if a.horizontal_reference_direction.nu() == 1 {
                 br.push("hrd:magnetic".into());
                 f += "   Heading reference:  magnetic north\n";
             } else {
@@ -377,7 +378,7 @@ pub fn refrender(frame: &Frame) -> (String, Vec<String>) {
             br.push("df0".into());
             let _ = writeln!(f, " Short Air-Air Surveillance");
             let _ = writeln!(f, "  ICAO Address:  {crc:06x} (Mode S / ADS-B)");
-            if altitude.0 > 0 {
+            if altitude.0.nu() > 0 {
                 br.push("alt>0".into());
                 let _ = writeln!(f, "  Air/Ground:    airborne?");
                 let _ = writeln!(f, "  Altitude:      {} ft barometric", altitude.0);
@@ -392,7 +393,7 @@ pub fn refrender(frame: &Frame) -> (String, Vec<String>) {
             let _ = writeln!(f, " Surveillance, Altitude Reply");
             let _ = writeln!(f, "  ICAO Address:  {crc:06x} (Mode S / ADS-B)");
             let _ = writeln!(f, "  Air/Ground:    {}", fs_word(fs));
-            if ac.0 > 0 {
+            if ac.0.nu() > 0 {
                 br.push("alt>0".into());
                 let _ = writeln!(f, "  Altitude:      {} ft barometric", ac.0);
             } else {
@@ -418,7 +419,7 @@ pub fn refrender(frame: &Frame) -> (String, Vec<String>) {
             br.push("df16".into());
             let _ = writeln!(f, " Long Air-Air ACAS");
             let _ = writeln!(f, "  ICAO Address:  {crc:06x} (Mode S / ADS-B)");
-            if altitude.0 > 0 {
+            if altitude.0.nu() > 0 {
                 br.push("alt>0".into());
                 let _ = writeln!(f, "  Air/Ground:    airborne?");
                 let _ = writeln!(f, "  Baro altitude: {} ft", altitude.0);
